@@ -436,3 +436,6 @@ func doReplay(sim string, run RunFunc, path string, dump bool) int {
 	fmt.Println("NOT-REPRODUCED")
 	return 0
 }
+
+// IsInfra tells whether a recovered panic value was raised by Infra.
+func IsInfra(p any) bool { _, ok := p.(*infraPanic); return ok }
